@@ -124,8 +124,12 @@ def render(model):
         out.append("/**\n * A user structure whose name resembles a CGlue pattern.\n */\ntypedef struct FooVtbl {\n    int32_t a;\n    int32_t b;\n} FooVtbl;\n\n")
     out.append("typedef struct Pt {\n    int32_t x;\n    int64_t y;\n    uint8_t z;\n} Pt;\n\n")
     out.append("/**\n * Wrapper around const slices.\n */\ntypedef struct CSliceRef_u8 {\n    const uint8_t *data;\n    uintptr_t len;\n} CSliceRef_u8;\n\n")
-    out.append("/**\n * FFI-safe box\n */\ntypedef struct CBox_c_void {\n    void *instance;\n    void (*drop_fn)(void*);\n} CBox_c_void;\n\n")
-    out.append("/**\n * FFI-Safe Arc\n */\ntypedef struct CArc_c_void {\n    const void *instance;\n    const void *(*clone_fn)(const void*);\n    void (*drop_fn)(const void*);\n} CArc_c_void;\n\n")
+    # cbindgen emits a type only when the API refers to it: no boxed object -> no CBox_c_void, no arc context -> no CArc_c_void
+    pairs = [(o["cont"], o["ctx"]) for o in model["objects"]] + [(i["cont"], i["ctx"]) for g in model["groups"] for i in g["insts"]]
+    if any(c == "Box" for c, _ in pairs) or model.get("ctxgeneric"):
+        out.append("/**\n * FFI-safe box\n */\ntypedef struct CBox_c_void {\n    void *instance;\n    void (*drop_fn)(void*);\n} CBox_c_void;\n\n")
+    if any(x == "Arc" for _, x in pairs):
+        out.append("/**\n * FFI-Safe Arc\n */\ntypedef struct CArc_c_void {\n    const void *instance;\n    const void *(*clone_fn)(const void*);\n    void (*drop_fn)(const void*);\n} CArc_c_void;\n\n")
     for cb in callback_kinds(model):
         mangled, cty = CB_ELEM[cb]
         out.append("/**\n * FFI compatible callback.\n */\ntypedef struct Callback_c_void__%s {\n    void *context;\n    bool (*func)(void*, %s);\n} Callback_c_void__%s;\n\n" % (mangled, cty, mangled))
